@@ -103,52 +103,65 @@ OracleEvents(s) ==
   \cup {Claim("x", 1, o, W1, 0, "T1", 1, "h1", "none") : o \in 1..2}
   \cup (IF Thorough THEN UpdProposer({"gov"}, {1}, {"p2"}) ELSE {})
 
+SeqBelow(s, b, n) == s.l1seq[K(b)] <= n
 LedgerEvents(s) ==
   Advance(s, 3, {3})
   \cup Creates(s, {"u1", "x"}, {Cfg("p1", "c1", 2, MetaNone)})
-  \cup Deposits({"u1", "u2"}, {1, 2, 3}, {"u2"}, {"d1", "d2"}, {0, 1, 3}, {"p0", "p1"})
+  \cup UNION {Deposits({"u1"}, {b}, {"u2"}, {"d1"}, {0, 2}, {"p1"}) : b \in {b \in {1, 2, 3} : SeqBelow(s, b, 2)}}
+  \cup (IF SeqBelow(s, 1, 2) THEN Deposits({"u2"}, {1}, {"u1"}, {"d2"}, {1}, {"p0"}) ELSE {})
   \cup Deposits({"bad:notbech32"}, {1}, {"u2"}, {"d1"}, {1}, {"p0"})
-  \cup Deposits({"u1"}, {0, 1}, {"bad:empty", "u2"}, {"d1", "bad:denom"}, {1}, {"p0"})
-  \cup Proposes({"p1"}, {1, 2}, {1}, {1}, {Root(0, "T2", "h1"), Root(0, "T4", "h1")})
-  \cup {Claim("x", b, 1, w, 0, t, pos, "h1", "none") :
-          b \in {1, 2}, w \in {W1, W2}, t \in {"T2", "T4"}, pos \in {1, 2}}
-  \cup Sends({"u1"}, {"esc1", "esc2", "u2"}, {"d1"}, {1})
-  \cup UpdParams({"gov"}, {0, 1})
+  \cup Deposits({"u1"}, {0, 1}, {"bad:empty", "u2"}, {"d1", "bad:denom"}, {3}, {"p0"})
+  \cup (IF Thorough THEN Deposits({"u1"}, {1, 2}, {"u2"}, {"d1"}, {3, 5}, {"p0"}) ELSE {})
+  \cup Proposes({"p1"}, {1}, {1}, {1}, {Root(0, "T2", "h1")})
+  \cup {Claim("x", b, 1, w, 0, "T2", pos, "h1", "none") : b \in {1, 2}, w \in {W1, W2}, pos \in {1, 2}}
+  \cup Sends({"u1"}, {"esc1", "esc2"}, {"d1"}, {1})
+  \cup (IF s.nextB <= s.maxB THEN UpdParams({"gov"}, {0, 1}) ELSE {})
   \cup ExpImp
 
+WVariants == {W1, [W1 EXCEPT !.amt = 2], [W1 EXCEPT !.to = "u2"], [W1 EXCEPT !.from = "u1", !.to = "u2"], [W1 EXCEPT !.seq = 2], [W1 EXCEPT !.denom = "d2"]}
+BadPos == {c \in {Claim("x", b, o, w, 0, t, pos, "h1", "none") : b \in {1, 2}, o \in 1..3, w \in {W1, W2, W3}, t \in {"T1", "T2", "T3"}, pos \in 1..3} : c.pos > Len(c.tree.leaves)}
+          \cup {c \in {Claim("u1", 1, o, w, v, t, pos, h, m) : o \in 1..2, w \in WVariants, v \in {0, 1}, t \in {"T1"}, pos \in {2}, h \in {"h1", "h2"}, m \in ProofMuts \cup {"len31"}} : TRUE}
 ClaimEvents(s) ==
   LET roots == {Root(0, "T1", "h1"), Root(0, "T2", "h1"), Root(0, "T3", "h1")}
-      muts  == IF Thorough THEN ProofMuts \cup {"len31"} ELSE {"none", "flip", "drop", "ext"} IN
+      muts  == IF Thorough THEN ProofMuts \cup {"len31"} ELSE {"none", "flip", "drop", "ext"}
+      n     == s.nextOut["1"] IN
   Advance(s, 4, {4})
   \cup Creates(s, {"u1"}, {Cfg("p1", "c1", 2, MetaNone)})
-  \cup Deposits({"u1"}, {1, 2}, {"u2"}, {"d1", "d2"}, {3}, {"p0"})
-  \cup Proposes({"p1"}, {1, 2}, 1..3, 1..3, roots)
+  \cup (IF SeqBelow(s, 1, 3) THEN Deposits({"u1"}, {1}, {"u2"}, {"d1", "d2"}, {2}, {"p0"}) ELSE {})
+  \cup (IF n <= 3 THEN Proposes({"p1"}, {1}, {n}, {n}, roots) ELSE {})
   \cup Deletes({"c1"}, {1}, 1..2)
-  \cup {Claim(a, b, o, w, v, t, pos, h, m) :
-          a \in {"x"}, b \in {1, 2}, o \in 1..3, w \in {W1, W2, W3}, v \in {0}, t \in {"T1", "T2", "T3"},
-          pos \in 1..3, h \in {"h1"}, m \in {"none"}}
-  \cup {Claim("u1", 1, o, w, v, t, pos, h, m) :
-          o \in 1..2, w \in {W1, [W1 EXCEPT !.amt = 2], [W1 EXCEPT !.to = "u2"], [W1 EXCEPT !.from = "u1", !.to = "u2"], [W1 EXCEPT !.seq = 2], [W1 EXCEPT !.denom = "d2"]},
-          v \in {0, 1}, t \in {"T1", "T2"}, pos \in 1..2, h \in {"h1", "h2"}, m \in muts}
+  \cup ({Claim("x", b, o, w, 0, t, pos, "h1", "none") :
+          b \in {1, 2}, o \in 1..3, w \in {W1, W2, W3}, t \in {"T1", "T2", "T3"}, pos \in 1..3} \ BadPos)
+  \cup (IF Thorough
+        THEN ({Claim("u1", 1, o, w, v, t, pos, h, m) :
+                o \in 1..2, w \in WVariants, v \in {0, 1}, t \in {"T1", "T2"}, pos \in 1..2, h \in {"h1", "h2"}, m \in muts} \ BadPos)
+        ELSE \* one dimension at a time around the valid claim (W1, version 0, tree T2, position 1, block hash h1)
+             {Claim("u1", 1, o, w, 0, "T2", 1, "h1", "none") : o \in 1..3, w \in WVariants}
+             \cup {Claim("u1", 1, o, W1, 1, "T2", 1, "h1", "none") : o \in 1..3}
+             \cup {Claim("u1", 1, o, W1, 0, "T2", 2, "h1", "none") : o \in 1..3}
+             \cup {Claim("u1", 1, o, W1, 0, "T3", 2, "h2", "none") : o \in 1..3}
+             \cup {Claim("u1", 1, o, W1, 0, "T2", 1, "h2", "none") : o \in 1..3}
+             \cup {Claim("u1", 1, o, W1, 0, "T2", 1, "h1", m) : o \in 1..3, m \in muts})
 
 AuthSigners == {"gov", "p1", "p2", "c1", "c2", "x"}
 AuthEvents(s) ==
+  LET n == s.nextOut["1"] IN
   Advance(s, 4, {4})
   \cup Creates(s, {"x"}, {Cfg("p1", "c1", 2, MetaNone)})
-  \cup Proposes(AuthSigners, {1}, {s.nextOut["1"]}, {s.nextOut["1"]}, {Root(0, "T1", "h1")})
+  \cup (IF n <= 2 THEN Proposes(AuthSigners, {1}, {n}, {n}, {Root(0, "T1", "h1")}) ELSE {})
   \cup Deletes(AuthSigners, {1}, {1})
   \cup UpdProposer(AuthSigners, {1}, {"p1", "p2"})
   \cup UpdChallenger(AuthSigners, {1}, {"c1", "c2"})
-  \cup UpdBatch(AuthSigners, {1})
-  \cup UpdOracle(AuthSigners, {1})
-  \cup UpdMeta(AuthSigners, {1}, {[cls |-> "plain", chs |-> << >>]})
-  \cup UpdParams(AuthSigners, {1})
+  \cup (IF Len(s.batch["1"]) <= 1 THEN UpdBatch(AuthSigners, {1}) ELSE {})
+  \cup (IF Has(s.cfg, "1") /\ ~s.cfg["1"].oracle THEN UpdOracle(AuthSigners, {1}) ELSE {})
+  \cup (IF Has(s.cfg, "1") /\ s.cfg["1"].meta.cls = "none" THEN UpdMeta(AuthSigners, {1}, {[cls |-> "plain", chs |-> << >>]}) ELSE {})
+  \cup (IF s.fee = 0 THEN UpdParams(AuthSigners, {1}) ELSE {})
   \cup RecBatch({"x"}, {1})
 
 PermMetas == {MetaNone, [cls |-> "perm", chs |-> <<"ch1">>], [cls |-> "perm", chs |-> <<"ch1", "ch2">>],
               [cls |-> "unknownField", chs |-> <<"ch1">>], [cls |-> "casedKey", chs |-> <<"ch2">>],
-              [cls |-> "notJSON", chs |-> <<"ch1">>], [cls |-> "dupKey", chs |-> <<"ch1">>],
               [cls |-> "perm", chs |-> <<"ch2", "ch2">>]}
+              \cup (IF Thorough THEN {[cls |-> "notJSON", chs |-> <<"ch1">>], [cls |-> "wrongType", chs |-> <<"ch1">>]} ELSE {})
 PermEvents(s) ==
   Creates(s, {"x"}, {Cfg("p1", c, 2, m) : c \in {"c1", "c2"}, m \in PermMetas})
   \cup UpdMeta({"p1", "x"}, {1, 2}, PermMetas)
@@ -246,6 +259,12 @@ OnlyWithdrawalDebits(s, o, t) ==
   \A k \in DOMAIN s.l1seq : \A d \in DOMAIN s.bal[EscrowOf(k)] :
      t.bal[EscrowOf(k)][d] < s.bal[EscrowOf(k)][d] =>
         (IsOK(o, "FinalizeTokenWithdrawal") /\ K(o.e.b) = k)
+EscrowDelta(s, o, t) ==       \* C01 conservation, stated per step: escrow moves exactly by what the event says
+  \A k \in DOMAIN s.l1seq : \A d \in DOMAIN s.bal[EscrowOf(k)] :
+     t.bal[EscrowOf(k)][d] - s.bal[EscrowOf(k)][d] =
+       (IF IsOK(o, "InitiateTokenDeposit") /\ K(o.e.b) = k /\ o.e.denom = d THEN o.e.amt ELSE 0)
+     + (IF IsOK(o, "BankSend") /\ o.e.to = EscrowOf(k) /\ o.e.denom = d THEN o.e.amt ELSE 0)
+     - (IF IsOK(o, "FinalizeTokenWithdrawal") /\ K(o.e.b) = k /\ o.e.w.denom = d THEN o.e.w.amt ELSE 0)
 BridgeView(s, k) ==
   [cfg |-> IF Has(s.cfg, k) THEN s.cfg[k] ELSE EmptyMap, l1seq |-> s.l1seq[k], outs |-> s.outs[k],
    nextOut |-> s.nextOut[k], batch |-> s.batch[k], esc |-> s.bal[EscrowOf(k)],
@@ -348,6 +367,7 @@ P_ProposeRule       == [][ProposeRule(st, NextOutcome, st')]_vars
 P_DeleteRule        == [][DeleteRule(st, NextOutcome, st')]_vars
 P_WindowHonoured    == [][WindowHonoured(st, NextOutcome, st')]_vars
 P_FinalIrreversible == [][FinalIrreversible(st, NextOutcome, st')]_vars
+P_EscrowDelta       == [][EscrowDelta(st, NextOutcome, st')]_vars
 P_OnlyWdDebits      == [][OnlyWithdrawalDebits(st, NextOutcome, st')]_vars
 P_Isolation         == [][Isolation(st, NextOutcome, st')]_vars
 P_Bystanders        == [][Bystanders(st, NextOutcome, st')]_vars
